@@ -57,6 +57,8 @@ static unsigned long long spec_tag_block(int ver, unsigned int incompat, const u
 #define SPEC_FLAG_SAME_UUID 2u
 #define SPEC_FLAG_LAST_TAG  8u
 
+/* units with their own input record define JR_CUSTOM_IN and declare `IN` themselves after this header */
+#ifndef JR_CUSTOM_IN
 struct in_jr {
 	unsigned char bs_log;		/* blocksize = 1024 << bs_log */
 	int format_version;
@@ -73,6 +75,7 @@ struct in_jr {
 };
 struct in_jr IN;
 #include "verif_in.h"
+#endif
 
 unsigned long long verif_k;
 unsigned long long verif_g0, verif_g1, verif_g2, verif_g3, verif_g4, verif_g5, verif_g6, verif_g7;	/* generic ghost registers: meaning fixed per unit */
